@@ -1,12 +1,15 @@
 #!/bin/sh
-# tools/run_seed.sh <seed-id> <tier> <prop>...: apply a seeded change to /repo, run the given checks, always undo it.
+# tools/run_seed.sh <seed-id> <tier> <prop>...: apply a seeded change in a scratch worktree of /repo HEAD (never in
+# /repo itself), run the given checks against it (VERIF_REPO), remove the worktree.
 id=$1; tier=$2; shift 2
-cd /verif
-if [ -n "$(git -C /repo status --porcelain)" ]; then echo "/repo not clean"; exit 2; fi
-git -C /repo apply /verif/seeded/$id/patch.diff || exit 2
-trap 'git -C /repo checkout -- . ; git -C /repo clean -fdq' EXIT INT TERM
+HERE=$(cd "$(dirname "$0")/.." && pwd)
+cd "$HERE"
+wt=/tmp/seedrun.$$
+git -C /repo worktree add -q --detach $wt HEAD || exit 2
+trap 'git -C /repo worktree remove --force $wt >/dev/null 2>&1' EXIT INT TERM
+(cd $wt && git apply "$HERE/seeded/$id/patch.diff") || { echo "seed=$id does not apply"; exit 2; }
 for p in "$@"; do
-  out=$(./check $p $tier 2>&1); rc=$?
+  out=$(VERIF_REPO=$wt ./check $p $tier 2>&1); rc=$?
   echo "seed=$id check=$p rc=$rc $(echo "$out" | tail -1)"
   echo "$out" | grep -E "^(VIOLATION|INFRA|  )" | head -6 | cut -c1-300
 done
